@@ -119,6 +119,17 @@ def _union(gs: list[G]) -> Optional[G]:
 def token_source(ge: GrammarEval, f: FuncInfo, call: ast.Call) -> tuple[Optional[G], str]:
     """Grammar element(s) whose matched text reaches this int() call, with a description."""
     a = call.args[0]
+    # a local bound once to (a part of) a token stands for it: `t = parsed_register[0]; int(t[1])`
+    from ..pathsym import subst
+    counts: dict = {}
+    for n in ast.walk(f.node):
+        if isinstance(n, ast.Name) and isinstance(n.ctx, ast.Store):
+            counts[n.id] = counts.get(n.id, 0) + 1
+    single = {n.targets[0].id: n.value for n in ast.walk(f.node) if isinstance(n, ast.Assign) and len(n.targets) == 1
+              and isinstance(n.targets[0], ast.Name) and counts.get(n.targets[0].id) == 1
+              and isinstance(n.value, (ast.Name, ast.Attribute, ast.Subscript)) and not any(isinstance(x, ast.Call) for x in ast.walk(n.value))}
+    for _ in range(3):
+        a = subst(a, single)
     line = ge.get("_pattern_line")
     txt = ast.unparse(a)
     if isinstance(a, ast.Name):
